@@ -677,7 +677,7 @@ func c06RunPool(c *ctx, exe, work string, round int, jobs []iso.Job, nw int, vme
 }
 
 func runC06(c *ctx) {
-	c.Rule = "inputs run in child worker processes (ulimit -v 2 GiB, watchdog). Oracle per call: no panic escapes sml.Parse; the worker does not abort (out of memory, stack overflow, deadlock); the logical step counters of hook H2 stay within linear budgets (lexer.next <= 64*len+1024, state functions <= 8*len+256, parser.peek <= 64*len+1024); errors and messages are never returned together; generated sequences of k valid tagged messages are returned complete and in order; every diagnostic reads 'Ln x, Col y: text' with a position that is a character position of the input or its end. Inputs: systematic (duplicate variables of every type under 12 size declarations incl. absurd ones, 27 exotic spaces in 12 positions, 150 hostile fragments in 12 structural positions, nesting closed to 3000 and unclosed to 20000/100000), token soups, valid sequences, byte/span mutations of valid texts, random bytes, large inputs; two further rounds mutate the inputs that produced a new diagnostic shape (coverage signal). non-trivial = the input reaches the item parser or produces a diagnostic; distinct by input hash Also (rounds 6-8): hook H4 (list walks in package ast, budget 100000+2*len^2); nests with a variable/ellipsis/error at the bottom or beside every level; thousands of diagnostics in one text; header near-misses; per worker: the previous successful result re-read after the next call, live heap after two collections before and after the batch (32 MiB + 2 x longest input), a one-process run of 220/600 inputs of 256-512 KiB with fresh names, batches of eight texts parsed at the same moment by eight goroutines."
+	c.Rule = "inputs run in child worker processes (ulimit -v 2 GiB, watchdog). Oracle per call: no panic escapes sml.Parse; the worker does not abort (out of memory, stack overflow, deadlock); the logical step counters of hook H2 stay within linear budgets (lexer.next <= 64*len+1024, state functions <= 8*len+256, parser.peek <= 64*len+1024); errors and messages are never returned together; generated sequences of k valid tagged messages are returned complete and in order; every diagnostic reads 'Ln x, Col y: text' with a position that is a character position of the input or its end. Inputs: systematic (duplicate variables of every type under 12 size declarations incl. absurd ones, 27 exotic spaces in 12 positions, 150 hostile fragments in 12 structural positions, nesting closed to 3000 and unclosed to 20000/100000), token soups, valid sequences, byte/span mutations of valid texts, random bytes, large inputs; two further rounds mutate the inputs that produced a new diagnostic shape (coverage signal). non-trivial = the input reaches the item parser or produces a diagnostic; distinct by input hash Also (rounds 6-8): hook H4 (list walks in package ast, budget 100000+2*len^2); nests with a variable/ellipsis/error at the bottom or beside every level; thousands of diagnostics in one text; header near-misses; per worker: the previous successful result re-read after the next call, live heap after two collections before and after the batch (32 MiB + 2 x longest input), a one-process run of 220/600 inputs of 256-512 KiB with fresh names, batches of eight texts parsed at the same moment by eight goroutines. Also (round 9): generated sequences omit the direction now and then and continue the header before them (same stream, function +1/+0/+2, same direction)."
 	c.Assume = []string{"hook H2 (pkg/parser/sml/verif_on.go, build tag verif) counts lexer.next, state-function and parser.peek calls of one Parse", "2 GiB address-space limit: a 1 MiB input legitimately needs < 300 MB"}
 
 	exe, _ := os.Executable()
